@@ -54,6 +54,12 @@ def do(sf, job):
 def make_jobs(rng, table, n):
     g = LiveGen(table, rng)
     jobs = []
+    # deeply nested inputs, far from the interpreter's recursion limit on either side: they either translate
+    # (depth <= 800) or raise RecursionError (depth >= 2600, known findings F5/F9) - alone and concurrently alike
+    for d in rng.sample([300, 600, 760, 800, 2600, 3000], 3):
+        jobs.append(["e", "C(" * d + "F" + ")F" * d, {"strict": False}])
+        if d <= 800:
+            jobs.append(["d", "[S][Branch1][P]" * min(d, 700) + "[C]", {}])
     for i in range(n):
         x = rng.random()
         if x < 0.5:
